@@ -110,14 +110,49 @@ func GetHops(pkt []byte) uint8 {
 }
 
 func SetOptionUint32(pkt []byte, optCode byte, value uint32) []byte {
-	offset := findOption(pkt, optCode)
-	if offset >= 0 && offset+5 < len(pkt) && pkt[offset+1] == 4 {
-		binary.BigEndian.PutUint32(pkt[offset+2:offset+6], value)
-		return pkt
-	}
-	return insertOption(pkt, optCode, 4, func(buf []byte) {
+	return setOption4(pkt, optCode, func(buf []byte) {
 		binary.BigEndian.PutUint32(buf, value)
 	})
+}
+
+// setOption4 makes optCode appear exactly once with the 4-byte value written
+// by fill: a single existing 4-byte instance is overwritten in place, any
+// other existing instances (wrong length, duplicates) are removed first.
+func setOption4(pkt []byte, optCode byte, fill func([]byte)) []byte {
+	spans := optionSpans(pkt, optCode)
+	if len(spans) == 1 && spans[0][1]-spans[0][0] == 6 {
+		fill(pkt[spans[0][0]+2 : spans[0][0]+6])
+		return pkt
+	}
+	for k := len(spans) - 1; k >= 0; k-- {
+		pkt = removeRange(pkt, spans[k][0], spans[k][1])
+	}
+	return insertOption(pkt, optCode, 4, fill)
+}
+
+// optionSpans returns the [start,end) range of every complete instance of
+// optCode before the End option.
+func optionSpans(pkt []byte, optCode byte) [][2]int {
+	var spans [][2]int
+	i := OffsetOpts
+	for i < len(pkt) {
+		if pkt[i] == 0 {
+			i++
+			continue
+		}
+		if pkt[i] == OptEnd || i+1 >= len(pkt) {
+			break
+		}
+		end := i + 2 + int(pkt[i+1])
+		if end > len(pkt) {
+			break
+		}
+		if pkt[i] == optCode {
+			spans = append(spans, [2]int{i, end})
+		}
+		i = end
+	}
+	return spans
 }
 
 func SetOptionIP(pkt []byte, optCode byte, addr net.IP) []byte {
@@ -125,12 +160,7 @@ func SetOptionIP(pkt []byte, optCode byte, addr net.IP) []byte {
 	if ip4 == nil {
 		return pkt
 	}
-	offset := findOption(pkt, optCode)
-	if offset >= 0 && offset+5 < len(pkt) && pkt[offset+1] == 4 {
-		copy(pkt[offset+2:offset+6], ip4)
-		return pkt
-	}
-	return insertOption(pkt, optCode, 4, func(buf []byte) {
+	return setOption4(pkt, optCode, func(buf []byte) {
 		copy(buf, ip4)
 	})
 }
